@@ -294,7 +294,7 @@ var atomicOK = func() map[string]bool {
 var osUnmodelled = map[string]bool{"ReadFile": true, "WriteFile": true, "Remove": true, "RemoveAll": true, "Rename": true, "Mkdir": true, "MkdirTemp": true, "CreateTemp": true,
 	"Stat": true, "Lstat": true, "ReadDir": true, "Chdir": true, "Truncate": true, "Symlink": true, "Link": true, "Chmod": true, "NewFile": true, "Pipe": true, "DirFS": true}
 
-var syncOK = map[string]bool{"WaitGroup": true, "Mutex": true, "RWMutex": true, "Once": true}
+var syncOK = map[string]bool{"WaitGroup": true, "Mutex": true, "RWMutex": true, "Once": true, "Pool": true}
 var timeBad = map[string]bool{"NewTimer": true, "Tick": true, "AfterFunc": true, "NewTicker": true, "Since": true, "Until": true, "Timer": true, "Ticker": true}
 
 func (r *rw) relPos(p token.Pos) string {
